@@ -264,3 +264,49 @@ CHECKS["C44"] = dict(
     bounds="operator trees of depth <= 1 (2) over {x, y, numbers, a symbolic integer, pi} and 11 unary functions: latex, mathml, unicode and julia printers return; LaTeX braces and \\left/\\right balanced; MathML tag stack well-formed; Julia parentheses balanced; parse_sbml(sbml(e)) == e on the SBML fragment",
     outside=["sets, matrices, piecewise and relational printing", "unicode box geometry"],
 )
+
+CHECKS["C04"] = dict(
+    src="C04.cpp", level="model_checking",
+    entries=[
+        dict(name="harness_c04_add_mul", quick={"B": 2}, thorough={"B": 4, "_wall": 1700}),
+        dict(name="harness_c04_maxmin_logic", quick={"B": 2}, thorough={"B": 5}),
+    ],
+    anchors=["SymEngine::Add::dict_add_term", "SymEngine::Add::from_dict", "SymEngine::Mul::dict_add_term_new", "SymEngine::Mul::from_dict", "SymEngine::add(", "SymEngine::mul("],
+    bounds="all triples (a,b,c) from 11 operand shapes (integer, rational, symbol, c*x, x**c, x**(c/2), c*y**2, sin x, Gaussian number, x*y, 2**(c/3)) over two shared symbolic integer slots |c|<=2 (4): all 6 orders x 2 bracketings of + and *, the n-ary add/mul, equal hashes; max/min/And/Or over mixed numeric and symbolic arguments",
+    outside=["more than three operands", "floating point operands (order-dependence of float addition is not a canonical-form question)"],
+)
+
+CHECKS["C39"] = dict(
+    src="C39.cpp", level="model_checking",
+    entries=[
+        dict(name="harness_c39_symbols", quick={"depth": 1, "symB": 2}, thorough={"depth": 2, "symB": 2, "_wall": 1700}),
+        dict(name="harness_c39_coeff", quick={"B": 2}, thorough={"B": 6}),
+    ],
+    anchors=["SymEngine::free_symbols", "SymEngine::has_symbol", "SymEngine::function_symbols", "SymEngine::coeff"],
+    bounds="operator trees of depth <= 1 (2) over {x, y, p, 2, -1/2, 0, 1, a symbolic integer |c|<=2} (slots that become 0 or 1 and cancelling terms make symbols disappear): free_symbols/has_symbol against an independent walk of the result tree, f(e), function_symbols; coeff(p,x,n) for p = a x^2 + b y x + c + y with symbolic a,b,c reconstructs p",
+    outside=["Derivative/Subs/sets/Piecewise binding rules", "atoms()"],
+)
+
+CHECKS["C37"] = dict(
+    src="C37.cpp", level="model_checking",
+    entries=[dict(name="harness_c37_cse", quick={"depth": 1}, thorough={"depth": 2, "_wall": 1700})],
+    anchors=["SymEngine::cse", "SymEngine::tree_cse", "SymEngine::opt_cse"],
+    bounds="four outputs sin(s)+s*u, (s+u)*cos(s), (s+u+x)^2, s+u+y sharing a subtree s (operator tree of depth <= 1 (2)), a sub-sum s+u and products, u of depth <= 1, with symbolic integer slots: fresh replacement symbols, ordering of replacements, back-substitution reproduces every input",
+    outside=["more than four outputs", "matrices"],
+)
+
+CHECKS["C03"] = dict(
+    src="C03.cpp", level="model_checking", cfg="assert",
+    entries=[
+        dict(name="harness_c03_functions", quick={"B": 2}, thorough={"B": 5}),
+        dict(name="harness_c03_powers", quick={"B": 2}, thorough={"B": 5}),
+        dict(name="harness_c07_trees", src="C07.cpp", quick={"depth": 1}, thorough={"depth": 2, "_wall": 1700}),
+        dict(name="harness_c09_value", src="C09.cpp", quick={"B": 2, "kmax": 3}, thorough={"B": 4, "kmax": 4}, thorough_only=True),
+        dict(name="harness_c10_diff", src="C10.cpp", quick={"depth": 1}, thorough={"depth": 2, "_wall": 1700}),
+        dict(name="harness_c11_subs", src="C11.cpp", quick={"depth": 1}, thorough={"depth": 2, "_wall": 1700}, thorough_only=True),
+        dict(name="harness_c04_add_mul", src="C04.cpp", quick={"B": 1}, thorough={"B": 3, "_wall": 1700}, thorough_only=True),
+    ],
+    anchors=["__verif_assert_fail", "SymEngine::Add::is_canonical", "SymEngine::Mul::is_canonical", "SymEngine::Pow::is_canonical", "SymEngine::Sign::is_canonical"],
+    bounds="assertion configuration (every SYMENGINE_ASSERT redirected to the engine, 11 000 sites): 24 one-argument function constructors on 8 argument shapes (integer, rational, Gaussian, n/d*pi, x+n/d*pi, n*x, -x, complex*x) with symbolic n |n|<=2 (5); radical products, nested powers, sqrt(x^2)^2; plus the C07 tree, C10 diff (and in the thorough tier C09, C11, C04) harnesses re-run under assertions; independent structural validator of the documented invariants on every result",
+    outside=["series, solve, parsing and deserialisation results", "API call sequences longer than three operations"],
+)
